@@ -15,7 +15,9 @@ RULE = ('(L1) random op sequences (set/unset/growto/copy_from_column/clear; righ
         'of columns of/targeting the table before, and the engine result after, vs the model of doBulkRemoveRecord; '
         '(S) after every bundle: no data Ref/RefList cell of any table (metadata included) mentions a row removed by '
         'the bundle, single removals filter exactly the removed ids in order, the reverse index of every live '
-        'column is exact.  Histories: documents with one-way, two-way and self references, record/column/table '
+        'column is exact.  Histories: documents with one-way, two-way and self references, DATA Ref/RefList columns '
+        'that carry a default or trigger formula (recalcWhen DEFAULT with/without recalcDeps, NEVER, MANUAL_UPDATES) '
+        'filled by new records and by explicit updates, record/column/table '
         'removals (also through the metadata tables), Ref<->RefList switches; a separate stream adds ReplaceTableData. '
         'A case is non-trivial when references exist / a removal hits a referenced row')
 TRUSTED = ['Model/RefIndex.v is hand-written; it is compared with the running code on every run at three levels '
@@ -211,6 +213,8 @@ class Oracle(object):
       if not rm:
         continue
       self.bump('removal_seen_by_refcol')
+      if c.has_formula():
+        self.bump('removal_seen_by_data_refcol_with_formula')
       expl = None
       for r in e.tables[tid].row_ids:
         for t in c._value_iterable(c.raw_get(r)):
@@ -237,7 +241,9 @@ class Oracle(object):
         for r in e.tables[tid].row_ids:
           want = want_without(kind, old.get(r), rmset) if tgt == table_id else old.get(r)
           hit = hit or want != old.get(r)
-          if c.raw_get(r) != want or type(c.raw_get(r)) is not type(want):
+          got = c.raw_get(r)
+          same_type = type(got) is type(want) or (isinstance(got, list) and isinstance(want, list))
+          if got != want or not same_type:      # (a RecordList from a lookup formula is a list of ids like any other)
             self.issues.append(('removal_wrong_cell', 'after %r: %s.%s[%d] was %r, is %r, expected %r' % (
               bundle, tid, cid, r, old.get(r), c.raw_get(r), want)))
             return 'stop'
